@@ -36,6 +36,7 @@ type c03Case struct {
 	Entry string    `json:"entry"`
 	B     obs.Hex   `json:"bytes"`
 	Conv  []obs.Hex `json:"conversation,omitempty"` // netboot: a sequence of datagrams
+	Bound int       `json:"bound,omitempty"`        // raw: 0 bound to port 68, 1 no bound address (nil), 2 bound to an address and port
 }
 
 var c03Entries = []string{"v4", "v4opts", "v4types", "v6", "v6msg", "v6relay", "v6opt", "duid", "labels", "archs", "raw", "netboot6", "netboot4"}
@@ -164,7 +165,14 @@ func c03Run(c c03Case) (accepted bool, observers int, f *obs.Fail) {
 		return true, 2, nil
 	case "raw":
 		raw := &scriptRaw{frames: [][]byte{in()}}
-		conn := nclient4.NewBroadcastUDPConn(raw, &net.UDPAddr{Port: 68})
+		var ba *net.UDPAddr
+		switch c.Bound {
+		case 0:
+			ba = &net.UDPAddr{Port: 68}
+		case 2:
+			ba = &net.UDPAddr{IP: net.IP{255, 255, 255, 255}, Port: 68}
+		}
+		conn := nclient4.NewBroadcastUDPConn(raw, ba)
 		buf := make([]byte, 2048)
 		n, _, err := conn.ReadFrom(buf)
 		_ = n
@@ -309,8 +317,21 @@ func ztpDict() []string {
 		}
 		for _, l := range lits {
 			add(l)
-			for _, tail := range []string{"a", "-a-b", ":a:b", ";a;b;c", "##a##b", "-", ":"} {
-				add(l + tail)
+			// continuations with every field count 1..5 for every separator the parsers split on, so that
+			// "prefix + exactly k fields" exists for each k a length check might be off by
+			for _, sep := range []string{";", ":", "-", "##", "/", ","} {
+				tail := ""
+				for k := 1; k <= 5; k++ {
+					if k > 1 {
+						tail += sep
+					}
+					tail += string(rune('a' + k - 1))
+					add(l + tail)
+					if !strings.HasSuffix(l, sep) {
+						add(l + sep + tail)
+					}
+				}
+				add(l + sep)
 			}
 		}
 	})
@@ -434,6 +455,7 @@ func genC03() *rapid.Generator[c03Case] {
 				b[i] = rapid.Byte().Draw(t, "v")
 			}
 			c.B = b
+			c.Bound = rapid.SampledFrom([]int{0, 0, 1, 2}).Draw(t, "bound")
 		case "netboot6":
 			n := rapid.IntRange(0, 4).Draw(t, "nconv")
 			for i := 0; i < n; i++ {
